@@ -203,13 +203,17 @@ impl ScriptContext {
         }
     }
     pub fn lookup(&self, id: &str) -> Result<Value, Error> {
-        if let Some(r) = self.varibles.get(id) {
-            tracing::trace!("lookup({})={}", id, r);
-            Ok(r.clone())
-        } else if let Some(p) = &self.parent {
-            p.lookup(id)
-        } else {
-            bail!("\"{}\" is undefined", id)
+        // walk outwards through the enclosing scopes (a loop: the chain is as long as `let`s are nested)
+        let mut scope = self;
+        loop {
+            if let Some(r) = scope.varibles.get(id) {
+                tracing::trace!("lookup({})={}", id, r);
+                return Ok(r.clone());
+            }
+            match &scope.parent {
+                Some(p) => scope = p,
+                None => bail!("\"{}\" is undefined", id),
+            }
         }
     }
     pub fn set(&mut self, id: String, value: Value) {
